@@ -25,8 +25,9 @@ func NewSorts() *Sorts {
 const prelude = `(declare-datatypes ((Str 0)) (((mk-str (s-base (Array Int Int)) (s-off Int) (s-len Int)))))
 (declare-datatypes ((Slc 0)) (((mk-slc (c-ref Int) (c-off Int) (c-len Int) (c-cap Int)))))
 (declare-datatypes ((Ifc 0)) (((mk-ifc (i-tag Int) (i-ref Int)))))
-(declare-fun sid (Str) Int)
-(declare-fun streq (Str Str) Bool)
+(declare-fun strord (Str) Int)
+(define-fun sid ((s Str)) Int (strord s))
+(define-fun streq ((a Str) (b Str)) Bool (= (strord a) (strord b)))
 (declare-fun pow2 (Int) Int)
 `
 
